@@ -30,10 +30,11 @@ META = dict(
     ],
     not_covered=[
         'view-only routines without an index function: where, full/zeros/ones(_like), element values of arange/linspace (start + i*step in floating point)',
-        'stack/hstack/vstack/dstack/column_stack as compositions of expand_dims/concatenate/reshape (hstack_axis, shape_vstack helpers not under contract)',
+        'stack/hstack/vstack/dstack/column_stack as compositions of expand_dims/concatenate/reshape (only the helpers hstack_axis and shape_vstack and the concatenate stage are under contract)',
         'index::expand source-index function (returns nmtools_either = std::variant: no C model); only shape_expand is covered',
         'split (view::detail::split_args returns nested std::vector for run-time shapes), compress (nonzero/where), sliding_window, diagflat, arange_shape, linspace_shape (std::vector result)',
-        'repeat with per-element repeats or axis=None, roll with several axes / axis=None index variant, concatenate with axis=None, take with axis=None',
+        'repeat with per-element repeats or axis=None, concatenate with axis=None, take with axis=None',
+        'roll with a list of axes: only the shape / axis validity (shape_roll) is covered; the index variant (loop over the axes, normalize_roll_length) exceeded the solver budget (observed natively, not under contract: repeated axes do not accumulate, shape=(5) shift=(1,1) axis=(0,0) idx=(0) -> 4, NumPy 3); the axis=None index variant of index::roll is not used by view::roll (flatten + axis 0)',
         'compile-time-constant, fixed-size (std::array) and dynamic (std::vector) index containers; ranks above 8',
         'extents beyond the magnitude assumptions (int index arithmetic of roll / diagonal / tri*, float-free resize products >= 2^64)',
     ],
@@ -63,6 +64,9 @@ UNITS = [
     Unit('triu.bp', 'c04', 'verif_triu', mode='bp', unwind=10, unwind_loops=HN, clause='triu: predicate j-i>=k and source index'),
     Unit('eye.bp', 'c04', 'verif_eye', mode='bp', unwind=10, unwind_loops=HN, clause='eye: one iff j-i==k'),
     Unit('tri.bp', 'c04', 'verif_tri', mode='bp', unwind=10, unwind_loops=HN, clause='tri: one iff j-i<=k'),
+    Unit('shape_roll_axes.bp', 'c04', 'verif_shape_roll_axes', mode='bp', unwind=10, unwind_loops=HN, clause='roll (several axes): shape / axis validity'),
+    Unit('hstack_axis.bp', 'c04', 'verif_hstack_axis', mode='bp', unwind=10, unwind_loops=HN, clause='hstack: joining axis'),
+    Unit('shape_vstack.bp', 'c04', 'verif_shape_vstack', mode='bp', unwind=10, unwind_loops=HN, clause='vstack: promoted operand shape'),
 ]
 LEMMAS = [
     Lemma('c04_roll_mod', 'c04_roll_mod.lean', clause='roll: the executable source-coordinate formula of the contract equals the mathematical modulo (idx - shift) mod n for every shift'),
